@@ -219,6 +219,26 @@ func createCompiledRouteHandler(route *ast.Route, bytecode []byte, wsHub *websoc
 		}
 		vmInstance.SetLocal("headers", vm.ObjectValue{Val: headerObj})
 
+		// Routes declaring + auth(...) read `auth`; the compiler pre-declares
+		// it, so it must be bound here as the interpreter binds it (same shape,
+		// same token-derived data). Unbound, every compiled route touching
+		// auth.* failed with a 500 while --interpret served it.
+		if route.Auth != nil {
+			authData := extractDevAuthData(ctx.Request.Header.Get("Authorization"))
+			if authData == nil {
+				authData = map[string]interface{}{
+					"user": map[string]interface{}{
+						"id":       int64(0),
+						"username": "",
+						"role":     "",
+					},
+					"token":     "",
+					"expiresAt": int64(0),
+				}
+			}
+			vmInstance.SetLocal("auth", interfaceToValue(authData))
+		}
+
 		// Execute compiled bytecode
 		result, err := vmInstance.Execute(bytecode)
 		if err != nil {
